@@ -1544,7 +1544,8 @@ def rule_mount_scope(ctx, facts, rule):
                              "with the record are mounted from two tables, and their order on the record is no longer the order they were made in"
                              % (t["callee"].rsplit("::", 1)[1], origin_strs(src, 3)), extra="one-table")
     if tables_ok:
-        ctx.check(n_tab >= len(producers) + len(mounts) and n_tab > 0, rule, fn.path, fn.span,
+        # (producers that take the table inside a parameter struct show no table argument of their own: the mount call still does)
+        ctx.check(n_tab > 0, rule, fn.path, fn.span,
                   "attachments are parked in, and mounted from, the table the trace keeps across cycles", "%d table arguments, all the parameter" % n_tab,
                   "anchor lost: amend_* / mount_danglings take no HashMap<SpanId, _> argument", extra="one-table")
     ctx.check(len(mounts) == 1, rule, fn.path, fn.loc(mounts[0]), "attachments are mounted by one mount_danglings call per batch", "",
